@@ -45,6 +45,10 @@ pub fn exec(op: &str, a: &Value) -> Option<Value> {
         "PlainDateTime.toZonedOffset" => run(|| FS.with(|p| { let m = js::i(a, "off");
             let tz = TimeZone::try_from_str(&format!("{}{:02}:{:02}", if m < 0 { '-' } else { '+' }, m.abs() / 60, m.abs() % 60))?;
             arg_datetime(&a["dt"])?.to_zoned_date_time_with_provider(&tz, Disambiguation::Compatible, p) }), |z| big(z.epoch_nanoseconds().as_i128())),
+        "ZonedDateTime.fromDateOnlyStr" => run(|| FS.with(|p| { let m = js::i(a, "off"); let d = &a["d"];
+            let off = format!("{}{:02}:{:02}", if m < 0 { '-' } else { '+' }, m.abs() / 60, m.abs() % 60);
+            let s = format!("{}-{:02}-{:02}[{}]", year_str(js::i(d, "y")), js::i(d, "m"), js::i(d, "d"), off);
+            ZonedDateTime::from_str_with_provider(&s, Disambiguation::Compatible, OffsetDisambiguation::Reject, p) }), |z| big(z.epoch_nanoseconds().as_i128())),
         "ZonedDateTime.fromStrOffset" => run(|| FS.with(|p| { let m = js::i(a, "off"); let d = &a["dt"];
             let off = format!("{}{:02}:{:02}", if m < 0 { '-' } else { '+' }, m.abs() / 60, m.abs() % 60);
             let s = format!("{}-{:02}-{:02}T{:02}:{:02}:{:02}.{:03}{:03}{:03}{}[{}]", year_str(js::i(d, "y")), js::i(d, "m"), js::i(d, "d"),
